@@ -77,7 +77,7 @@ T_Ev ==
                  /\ endSent[p] = "none" /\ Cur.kind \in {"clean", "abort"} /\ Cur.at = sent[p]
                  \* a run none of whose senders gives up (full-duplex schedules: the instance has Aborts = FALSE): a sender
                  \* that records "abort" was cut by sozu - Peer_Close(p, "abort") is not an action of that instance
-                 /\ (Cur.kind = "abort" /\ Rec[hdr].no_aborts) => SozuCut
+                 /\ (Cur.kind = "abort" /\ "no_aborts" \in DOMAIN Rec[hdr] /\ Rec[hdr].no_aborts) => SozuCut
                  /\ endSent' = [endSent EXCEPT ![p] = Cur.kind]
                  /\ UNCHANGED <<sent, rcvd, endRcvd, excused>>
             [] Cur.k = "rcvd" ->
